@@ -20,6 +20,8 @@ import PprofVerif.Gen.FetchConsts
        like fetch.model, but every source is DESCRIBED (scheme 0 plug-in, 1 file, 2 http, 3 https,
        4 https+insecure; certificate trusted; valid body) and the model's trust table
        (SrcDesc.fetchable) decides which ones can be fetched. -/
+/- fetch.locate <k> <k × (dir name id)> <name> <buildid>
+       → index of the tree entry the mapping resolves to (Fetch.locate), or `none` -/
 namespace Driver.C16
 open PV PV.Fetch
 
@@ -76,6 +78,17 @@ def ops : List (String × (List String → String)) := [
     | none => "unknown"),
   ("fetch.facts", fun _ => Gen.FetchConsts.chunkShape ++ " " ++ Gen.FetchConsts.barrierShape ++ " " ++
     Gen.FetchConsts.collectShape),
+  ("fetch.locate", fun ts =>
+    match Rd.run (do
+        let tree ← Rd.list (do let a ← Rd.nat; let b ← Rd.nat; let c ← Rd.nat; pure (a, b, c))
+        let name ← Rd.nat
+        let bid ← Rd.nat
+        pure (tree, name, bid)) ts with
+    | none => "bad-op"
+    | some (tree, name, bid) =>
+      match locate tree name bid with
+      | some i => toString i
+      | none => "none"),
   ("fetch.descs", fun ts =>
     match Rd.run reqD ts with
     | none => "bad-op"
